@@ -218,7 +218,13 @@ func readClusterView(r *messages.Reader) (*ClusterView, error) {
 	if err := r.ReadInto(&viewID, &epoch, &timestamp, &memLen); err != nil {
 		return nil, err
 	}
-	members := make(map[string]*NodeState, memLen)
+	// 成员数量来自输入，不可信：预分配容量不超过剩余输入实际可能容纳的成员数（每个成员至少占 5 字节），
+	// 否则几十字节的输入即可触发数百 MiB 的分配
+	capHint := int(memLen)
+	if most := len(r.Remaining()) / 5; capHint > most {
+		capHint = most
+	}
+	members := make(map[string]*NodeState, capHint)
 	for i := uint32(0); i < memLen; i++ {
 		var id string
 		var has uint8
